@@ -428,6 +428,32 @@ func (sqlite *SQLiteDB) RemovePendingProofs(Ys []string) error {
 	return nil
 }
 
+func (sqlite *SQLiteDB) RemovePendingProofsByQuote(Ys []string, quoteId string) error {
+	tx, err := sqlite.db.Begin()
+	if err != nil {
+		return err
+	}
+
+	stmt, err := tx.Prepare("DELETE FROM pending_proofs WHERE y = ? AND melt_quote_id = ?")
+	if err != nil {
+		return err
+	}
+	defer stmt.Close()
+
+	for _, y := range Ys {
+		if _, err := stmt.Exec(y, quoteId); err != nil {
+			tx.Rollback()
+			return err
+		}
+	}
+
+	if err := tx.Commit(); err != nil {
+		return err
+	}
+
+	return nil
+}
+
 func (sqlite *SQLiteDB) SettlePendingProofs(Ys []string) error {
 	tx, err := sqlite.db.Begin()
 	if err != nil {
